@@ -162,6 +162,23 @@ def model_check(cx, module, cfg=None, consts=None, workers=1, timeout=1800, expe
     return outp
 
 
+def subsample(cx, path, n):
+    """Keep a seeded random subset of n behaviours (quick tier: the model is checked exhaustively, the
+    replay through the implementation is sampled)."""
+    import random
+    ls = read_lines(path)
+    if n is None or len(ls) <= n:
+        return path
+    rnd = random.Random(cx.seed)
+    keep = sorted(rnd.sample(range(len(ls)), n))
+    with open(path, "w") as f:
+        for i in keep:
+            f.write(ls[i] + "\n")
+    cx.cov.setdefault("replay_sampling", []).append({"file": os.path.basename(path), "exported": len(ls), "replayed": n})
+    log("[mc] replaying a seeded sample of %d of %d exported behaviours" % (n, len(ls)))
+    return path
+
+
 def tail_of(out, n=60):
     lines = [l for l in out.splitlines() if not re.match(r"^(Parsing|Semantic|Linting)", l)]
     return "\n".join(lines[-n:])
